@@ -1232,7 +1232,7 @@ type tieCase struct {
 	Width      int
 	Limit      int // FuncEvaluations limit (0: none, ListSearch only)
 	Concurrent int
-	Slow       int // the Slow-th evaluation started is delayed (schedule perturbation only)
+	Slow       int // the evaluation of the Slow-th point (list row, sample) is held back (schedule perturbation only)
 	Seed       uint64
 	Plan       uint64
 	Procs      int
@@ -1240,13 +1240,26 @@ type tieCase struct {
 
 type recRander struct {
 	inner distmv.Rander
+	mu    sync.Mutex
 	seq   [][]float64
 }
 
 func (r *recRander) Rand(x []float64) []float64 {
 	x = r.inner.Rand(x)
+	r.mu.Lock()
 	r.seq = append(r.seq, append([]float64(nil), x...))
+	r.mu.Unlock()
 	return x
+}
+
+// nth returns the n-th sample drawn so far (nil if there is none yet).
+func (r *recRander) nth(n int) []float64 {
+	r.mu.Lock()
+	defer r.mu.Unlock()
+	if n < len(r.seq) {
+		return r.seq[n]
+	}
+	return nil
 }
 
 func sameVec(a, b []float64) bool {
@@ -1290,7 +1303,8 @@ func checkTie(c tieCase) *vk.Failure {
 
 	g := vk.NewSplitMix(c.Seed)
 	var method optimize.Method
-	var order func() [][]float64 // the points in the order their evaluations are started
+	var order func() [][]float64  // the points in the order their evaluations are started
+	var nth func(k int) []float64 // the k-th of them
 	if c.Method == 0 {
 		locs := mat.NewDense(c.Rows, n, nil)
 		for i := 0; i < c.Rows; i++ {
@@ -1306,6 +1320,8 @@ func checkTie(c tieCase) *vk.Failure {
 			}
 			return out
 		}
+		rows := order()
+		nth = func(k int) []float64 { return rows[k] }
 	} else {
 		sigma := mat.NewSymDense(n, nil)
 		for i := 0; i < n; i++ {
@@ -1315,29 +1331,30 @@ func checkTie(c tieCase) *vk.Failure {
 		rr := &recRander{inner: nrm}
 		method = &optimize.GuessAndCheck{Rander: rr}
 		order = func() [][]float64 { return rr.seq }
+		nth = rr.nth
 	}
 	y := &yielder{plan: c.Plan}
 	var mu sync.Mutex
 	var evaluated [][]float64
-	var started atomic.Int64
+	var completed atomic.Int64
 	prob := optimize.Problem{Func: func(x []float64) float64 {
-		k := started.Add(1)
-		if int(k) == c.Slow+1 {
-			// hold this evaluation back so that later ones overtake it
-			z := 0.0
-			for i := 0; i < 20000; i++ {
-				z += math.Sqrt(float64(i))
-				if i%2000 == 0 {
-					runtime.Gosched()
-				}
+		if c.Concurrent >= 2 && sameVec(x, nth(c.Slow)) {
+			// Hold this evaluation back until one that was started later has
+			// finished (bounded, in case no other worker can run): the order
+			// of arrival then differs from the order of starting. This only
+			// perturbs the schedule; no oracle depends on it.
+			c0 := completed.Load()
+			for i := 0; i < 20000 && completed.Load() == c0; i++ {
+				runtime.Gosched()
 			}
-			_ = z
 		}
 		y.yield()
 		mu.Lock()
 		evaluated = append(evaluated, append([]float64(nil), x...))
 		mu.Unlock()
-		return level(x)
+		v := level(x)
+		completed.Add(1)
+		return v
 	}}
 	settings := &optimize.Settings{Concurrent: c.Concurrent, Converger: optimize.NeverTerminate{}, FuncEvaluations: c.Limit}
 	var res *optimize.Result
@@ -1417,7 +1434,7 @@ func TestOptimizeTies(t *testing.T) {
 		if c.Method == 0 {
 			c.Mode = rapid.SampledFrom([]int{0, 0, 0, 1, 2, 3}).Draw(t, "mode")
 			c.Limit = rapid.SampledFrom([]int{0, 0, 0, 1, 2, 3, 5, 8}).Draw(t, "limit")
-			c.Slow = rapid.IntRange(0, c.Rows-1).Draw(t, "slow")
+			c.Slow = rapid.IntRange(0, max(0, c.Rows-2)).Draw(t, "slow")
 		} else {
 			c.Mode = rapid.IntRange(0, 1).Draw(t, "mode")
 			c.Limit = rapid.IntRange(1, 30).Draw(t, "limit")
